@@ -11,6 +11,7 @@ from fractions import Fraction
 from xvlib.core import Check
 from xvlib.twins import CSide, JavaSide, Guards, norm_table
 from xvlib import datafiles
+from xvlib.facts import walk, show, strip_casts, calls_in
 
 JX = 'java/Xraylib.java'
 LIBM = {'log', 'exp', 'pow', 'sqrt', 'fabs', 'sin', 'cos', 'tan', 'asin', 'acos', 'atan', 'atan2', 'log10', 'floor', 'ceil'}
@@ -18,7 +19,7 @@ LIBM = {'log', 'exp', 'pow', 'sqrt', 'fabs', 'sin', 'cos', 'tan', 'asin', 'acos'
 # pairs whose two sides are different programs by design: not compared by fingerprint (reason recorded in the evidence)
 NOT_COMPARED = {
     'XRayInit': 'C: no-op kept for compatibility; Java: reads the table file (covered by the layout rule)',
-    'CompoundParser': 'the Java parser is an independent implementation (class compoundData), not a translation',
+    'CompoundParser': 'the Java entry point is the constructor of class compoundData; the scanner it shares with C is compared by rule twin-parser, the element lookup by java-value-search',
     'splint': 'C arrays are 1-based (callers pass table-1), Java arrays 0-based; the callers are compared with that shift applied',
     'GetCompoundDataNISTByName': 'catalogue search: lfind over a struct array in C, stream/equals over objects in Java',
     'GetCompoundDataNISTByIndex': 'catalogue copy: malloc/memcpy of a struct in C, object reference in Java',
@@ -163,13 +164,113 @@ def run(prog, tier):
             decide('guards', ga == gb,
                    'the parameter ranges rejected (by the function or by a callee whose failure propagates) differ: only in C %s, only in Java %s '
                    '(C %s:%d)' % (sorted(ga - gb), sorted(gb - ga), cf['rel'], cf['ln']), 'same transitive range guards %s' % sorted(ga))
+            # E' branch selectors: range tests on a parameter that choose a non-failing branch (density <= 0 -> catalogue density)
+            allg = G.gstar('c', n) | G.gstar('j', n)
+            ba = {g for g in G.branches('c', n) if range_guard(g) and ' == ' not in g and ' != ' not in g and g not in allg and param_of(g) not in disp}
+            bb = {g for g in G.branches('j', n) if range_guard(g) and ' == ' not in g and ' != ' not in g and g not in allg and param_of(g) not in disp}
+            if ba or bb:
+                decide('branches', ba == bb,
+                       'a range test on a parameter that selects a non-failing branch differs: only in C %s, only in Java %s (C %s:%d): on the boundary '
+                       'value the two sides take different branches' % (sorted(ba - bb), sorted(bb - ba), cf['rel'], cf['ln']),
+                       'same branch selectors %s' % sorted(ba))
     chk.floor('pairs compared', compared, 125)
     unused = [k for k in list(NOT_COMPARED) + list(IDIOMS) if k not in pairs]
     for k in unused:
         chk.note('idiom table entry %s has no pair on this tree' % k)
     layout(prog, chk, J)
     writer_twins(prog, chk, C)
+    value_searches(prog, chk)
+    parser_twin(prog, chk, C, J)
+    writer_precision(prog, chk)
     return chk
+
+
+def parser_twin(prog, chk, C, J):
+    """compoundData.CompoundParserSimple (Java) is a statement-by-statement translation of the static CompoundParserSimple of
+    src/xraylib-parser.c.  The character classification (ctype macros vs Character.*), the symbol lookup (bsearch vs
+    SymbolToAtomicNumber) and the number conversion (strtod vs parseDouble) are idioms; what must agree is the set of error exits
+    that test the scanner's counters and values: bracket balance, "nothing found", number of dots, zero subscript, blanks."""
+    cls = J.classes.get('compoundData')
+    jm = [m for m in (cls or {}).get('functions', []) if m['name'] == 'CompoundParserSimple' and 'body' in m]
+    if 'CompoundParserSimple' not in C.funcs or not jm:
+        chk.note('formula scanner twin not found on this tree (C %s, Java %s)' % ('CompoundParserSimple' in C.funcs, bool(jm)))
+        return
+    J.c_names = set(C.funcs)
+    jf = J.raw(jm[0])
+    cf = C.fingerprint('CompoundParserSimple', set(J.funcs) | {'CompoundParserSimple'})
+
+    def keep(g):
+        return not re.search(r'ctype|isDigit|isLowerCase|isUpperCase|isdigit|islower|isupper|endPtr|NULL|null', g)
+
+    def norm(g):
+        return re.sub(r'\b(compoundString|csa)\b', 'S', g)
+    a = Counter(norm(g) for g, n_ in cf.guards.items() for _ in range(n_) if keep(g))
+    b = Counter(norm(g) for g, n_ in jf.guards.items() for _ in range(n_) if keep(g))
+    f = C.funcs['CompoundParserSimple']
+    chk.decide(a == b and sum(a.values()) >= 8, 'twin-parser', 'java/compoundData.java', 'CompoundParserSimple', 'scanner-error-exits',
+               'java/compoundData.java:%d' % jm[0]['ln'],
+               'the formula scanners reject different inputs: error tests only in C %s, only in Java %s (C %s:%d)' % (
+                   dict(a - b), dict(b - a), f['rel'], f['ln']), why='same %d counter / value tests lead to an error' % sum(a.values()))
+
+
+SEARCH_METHODS = ('indexOf', 'lastIndexOf', 'contains', 'remove')
+
+
+def value_searches(prog, chk):
+    """Where C searches a vector with bsearch/lfind and a comparator, the Java translation searches a List with indexOf/contains and a
+    freshly built key object.  java.util compares with equals(): unless the key's class overrides equals(Object) - comparing exactly
+    the fields the C comparator compares - the search never finds anything and the translation silently takes the "not present"
+    branch (the formula parser then never merges repeated elements).  Decided for every such call in the Java sources."""
+    ju = [u for u in prog.units if u.get('lang') == 'java']
+    if not ju:
+        return
+    classes = {c['name']: c for c in ju[0]['classes']}
+    # the fields the C comparators look at, per record type name
+    ckeys = {}
+    for f in prog.src_funcs():
+        if not f['unit'].startswith('src/'):
+            continue
+        for c in calls_in(f['body']):
+            if c.get('callee') in ('bsearch', 'lfind', 'qsort'):
+                cmpf = strip_casts(c['args'][-1])
+                size = strip_casts(c['args'][3 if c['callee'] == 'bsearch' else 2])
+                if c['callee'] == 'lfind':
+                    size = strip_casts(c['args'][3])
+                rec = (size.get('argT') or '').replace('struct ', '').strip() if size.get('k') == 'UnaryExprOrTypeTraitExpr' else None
+                cf = prog.func(cmpf.get('name'), unit=f['unit'], required=False) if cmpf.get('k') == 'DeclRefExpr' else None
+                if rec and cf:
+                    flds = {n_.get('field') for n_ in walk(cf['body']) if n_.get('k') == 'MemberExpr'}
+                    ckeys.setdefault(rec, set()).update(x for x in flds if x)
+    n = 0
+    for c in ju[0]['classes']:
+        for f in c['functions']:
+            for node in walk(f.get('body') or {}):
+                if node.get('k') != 'CallExpr' or node.get('callee') not in SEARCH_METHODS or 'recv' not in node:
+                    continue
+                keys = [a for a in node.get('args', []) if a.get('k') == 'NewExpr' and a.get('cls') in classes]
+                if not keys:
+                    continue
+                n += 1
+                kc = classes[keys[0]['cls']]
+                eq = [m for m in kc['functions'] if m['name'] == 'equals' and len(m.get('params', [])) == 1 and m['params'][0].get('T') in ('Object', 'java.lang.Object')]
+                loc = '%s:%d' % (c['rel'], node['ln'])
+                if not eq:
+                    chk.bad('java-value-search', c['rel'], f['name'], '%s(new %s)@%d' % (node['callee'], kc['name'], node['ln']), loc,
+                            '%s() is given a freshly built %s, but class %s does not override equals(Object): the list compares by identity, the key is '
+                            'never found and the "not present" branch is always taken, where the C twin finds the entry with its comparator' % (
+                                node['callee'], kc['name'], kc['name']))
+                    continue
+                used = {n_.get('field') for n_ in walk(eq[0].get('body') or {}) if n_.get('k') == 'MemberExpr'} | \
+                    {n_.get('name') for n_ in walk(eq[0].get('body') or {}) if n_.get('k') == 'DeclRefExpr' and n_.get('cls') in ('field', 'global')}
+                own = {fl['name'] for fl in kc.get('fields', [])}
+                used &= own
+                want = ckeys.get(kc['name'])
+                ok = bool(used) and (want is None or used == (want & own if want & own else used))
+                chk.decide(ok, 'java-value-search', c['rel'], f['name'], '%s(new %s)@%d' % (node['callee'], kc['name'], node['ln']), loc,
+                           '%s.equals compares the fields %s, the C comparator of struct %s compares %s: the two searches do not find the same entries' % (
+                               kc['name'], sorted(used), kc['name'], sorted(want or [])),
+                           why='%s.equals compares %s like the C comparator' % (kc['name'], sorted(used)))
+    chk.floor('Java list searches with a key object', n, 2)
 
 
 def writer_twins(prog, chk, C):
@@ -191,6 +292,27 @@ def writer_twins(prog, chk, C):
         chk.decide(not diffs, 'writer-copy', W, n, 'same-derivation', '%s:%d' % (W, wf[n]['ln']),
                    'the copy of %s in the Java data writer differs from the original in src/pr_data.c, so the Java tables differ from the C tables: %s' % (
                        n, '; '.join(diffs)[:500]), why='same constants, callees, literals and tables as src/pr_data.c')
+
+
+def writer_precision(prog, chk):
+    """The Java data file carries the tables as raw doubles; the C tables go through text (src/pr_data.c).  The two implementations can
+    only agree to round-off if every floating conversion of the C generator keeps at least the 11 significant digits the build
+    documents, and does not turn the constant into a float (suffix f)."""
+    from rules.common import generator_float_formats
+    U = 'src/pr_data.c'
+    fm = generator_float_formats(prog, U)
+    chk.floor('floating conversions in the C table generator', len(fm), 4)
+    seen = set()
+    for fn, ln, conv, digits, suf, fmt in fm:
+        if (ln, conv) in seen:
+            continue
+        seen.add((ln, conv))
+        ok = digits is not None and digits >= 11 and not suf
+        chk.decide(ok, 'writer-precision', U, fn, '%s in format "%s"' % (conv, fmt.strip()[:28].replace('\n', ' ')), '%s:%d' % (U, ln),
+                   'the generator prints a table value with %s: %s; the Java data file carries the full double, so the C and Java results differ '
+                   'far beyond round-off (about 1e-8 relative for float constants)' % (
+                       conv, 'the constant gets a float suffix' if suf else ('only %s significant digits' % digits if digits else 'a fixed number of decimals, not of significant digits')),
+                   why='%s significant digits, double constant' % digits)
 
 
 def result_guards(guards, f):
